@@ -2,6 +2,7 @@
 symbolic well-formed arguments and collects obligations."""
 import os
 import sys
+import signal
 import time
 import traceback
 from poly import Poly, as_poly, show_poly
@@ -55,6 +56,10 @@ def param_name(p, i):
     if pat["k"] == "ref" and pat["pat"]["k"] == "bind":
         return pat["pat"]["name"]
     return f"arg{i}"
+
+
+class EntryTimeout(BaseException):
+    """Raised by the per-entry timer; not an Exception, so no handler inside the analysis can swallow it."""
 
 
 class Shapecheck:
@@ -143,16 +148,13 @@ class Shapecheck:
             n_facts0 = len(st.lin.facts)
             n_teq0 = len(st.teq)
             t0 = time.time()
-            import signal
-
             def on_alarm(signum, frame):
-                raise Unsupported("entry time limit exceeded")
+                raise EntryTimeout("entry time limit exceeded")
+            # the limit covers the evaluation, the invariant checks and the specification clauses of the entry; the
+            # timer keeps firing (a handler that swallowed the first one is interrupted again)
             signal.signal(signal.SIGALRM, on_alarm)
-            signal.alarm(self.entry_time_limit)
-            try:
-                outs = I.call_fn(fn, args, st, fr0, {"sp": fn["sp"], "k": "entry"})
-            finally:
-                signal.alarm(0)
+            signal.setitimer(signal.ITIMER_REAL, self.entry_time_limit, 2.0)
+            outs = I.call_fn(fn, args, st, fr0, {"sp": fn["sp"], "k": "entry"})
             # drop outcomes whose path is infeasible once empty-array consequences are drawn
             kept = []
             for (s_, v_, c_) in outs:
@@ -172,12 +174,20 @@ class Shapecheck:
             specs.after_entry(self, res)
             res["obligations"] = I.obligations[n0:]
             res["time"] = time.time() - t0
+            signal.setitimer(signal.ITIMER_REAL, 0)
             self.results[key] = res
+        except EntryTimeout as ex:
+            signal.setitimer(signal.ITIMER_REAL, 0)
+            del I.obligations[n0:]
+            self.errors[key] = f"Unsupported: {ex}"
         except (Unsupported, NotImplementedError, TypeError, KeyError, AssertionError, AttributeError, IndexError) as ex:
+            signal.setitimer(signal.ITIMER_REAL, 0)
             del I.obligations[n0:]
             self.errors[key] = f"{type(ex).__name__}: {ex}"
             if I.trace:
                 traceback.print_exc()
+        finally:
+            signal.setitimer(signal.ITIMER_REAL, 0)
 
     def sym_param(self, I, st, tyid, nm, wf, tsub):
         tyd = self.facts.ty(tyid)
